@@ -2083,7 +2083,11 @@ class Cluster(object):
             if future is not None:
                 have_future = True
                 futures.add(future)
-                future.add_done_callback(future_completed)
+
+        # only once every session has been asked: a pool that is ready early must not find the
+        # set of awaited pools empty and finalize the addition before (and again after) the others
+        for future in tuple(futures):
+            future.add_done_callback(future_completed)
 
         if not have_future:
             self._finalize_add(host)
